@@ -74,6 +74,11 @@ static int run_case(const struct kase *k, struct res *r, int verbose) {
             polyseed_str tmp; polyseed_encode(o, polyseed_get_lang((k->li + 3) % NL), k->coin ^ 0x155, tmp);
             polyseed_crypt(o, "x"); polyseed_free(o); r->calls += 4;
         }
+        /* the password operation applied twice puts the very same seed back: same phrase, same serialisation (the check value included) */
+        { uint8_t km[32]; memcpy(km, E.mask, 32); for (int i = 0; i < 32; i++) E.mask[i] = (uint8_t)(0x5B + 7 * i + (int)k->coin);
+          polyseed_crypt(s, "pass"); polyseed_crypt(s, "pass"); memcpy(E.mask, km, 32); r->calls += 2;
+          polyseed_str again2; size_t n4 = polyseed_encode(s, lang, k->coin, again2); uint8_t st4[32]; polyseed_store(s, st4); r->calls += 2;
+          if (n4 != n || memcmp(again2, b.out, n + 1) || memcmp(st4, st, 32)) FAIL("purity-crypt", "after the password operation was applied twice the seed writes a different phrase or serialisation (check value bytes %02x%02x expected %02x%02x)", st4[30], st4[31], st[30], st[31]); }
         /* encode again while the enabled mask is different (narrowed to nothing, then widened): the phrase is a function of the seed only */
         polyseed_str again; polyseed_enable_features(0); size_t n2 = polyseed_encode(s, lang, k->coin, again); r->calls++;
         if (n2 == n && !memcmp(again, b.out, n + 1)) { polyseed_enable_features(7); n2 = polyseed_encode(s, lang, k->coin, again); r->calls++; }
@@ -97,6 +102,8 @@ static int run_case(const struct kase *k, struct res *r, int verbose) {
     observe(d, k->coin, &o1); r->calls += 13;
     if (!obs_eq(&o0, &o1)) { obs_matches_ref(&o1, &k->r, k->coin, why, sizeof why); FAIL("explicit-seed", "decoded seed differs from the encoded one: %s", why); }
     polyseed_free(d); d = NULL;
+    /* an explicit decode of the same phrase in another language (the sister list for Chinese) right before must not tilt what follows */
+    { int other = k->li == 8 ? 9 : k->li == 9 ? 8 : (k->li + 1) % NL; polyseed_data *dx = NULL; if (polyseed_decode_explicit(b.out, k->coin, polyseed_get_lang(other), &dx) == POLYSEED_OK) polyseed_free(dx); r->calls++; }
     const polyseed_lang *lo = NULL;
     int as = polyseed_decode(b.out, k->coin, &lo, &d); r->calls++;
     dg = mix64(dg, as);
